@@ -210,6 +210,19 @@ def keyMaterial (kvs : List (Str × JVal)) : Str :=
 
 def hasKey (kvs : List (Str × JVal)) (k : String) : Bool := Dict.contains kvs k.toList
 
+/-- `(keytype, scheme) in KEY_FOR_TYPE_AND_SCHEME` (securesystemslib 0.31), the
+non-OpenPGP entries. -/
+def supportedKeyType (keytype scheme : Option Str) : Bool :=
+  match keytype, scheme with
+  | some t, some s =>
+    (t = lit "ed25519" && s = lit "ed25519") ||
+    ((t = lit "ecdsa" || t = lit "ecdsa-sha2-nistp256") && s = lit "ecdsa-sha2-nistp256") ||
+    ((t = lit "ecdsa" || t = lit "ecdsa-sha2-nistp384") && s = lit "ecdsa-sha2-nistp384") ||
+    (t = lit "rsa" &&
+      [lit "rsa-pkcs1v15-sha224", lit "rsa-pkcs1v15-sha256", lit "rsa-pkcs1v15-sha384", lit "rsa-pkcs1v15-sha512",
+       lit "rsassa-pss-sha224", lit "rsassa-pss-sha256", lit "rsassa-pss-sha384", lit "rsassa-pss-sha512"].contains s)
+  | _, _ => false
+
 /-- `_check_public_key` + the fields verification uses. gpg-shaped dictionaries
 (`type`, `method`, `hashes`, `keyval`) are `GPGKey`s, otherwise `keytype`,
 `scheme`, `keyval.public` are required. -/
@@ -226,6 +239,9 @@ def readPubKey (j : JVal) : Except Err PubKey :=
                 | some (.obj sk) => sk
                 | _ => [] }
       else if hasKey kvs "keytype" ∧ hasKey kvs "scheme" ∧ hasKey kvs "keyval" then
+        if !supportedKeyType (optStr (Dict.get? kvs (lit "keytype"))) (optStr (Dict.get? kvs (lit "scheme")))
+        then .error .value
+        else
         match (getD kvs "keyval" .null).getKey? (lit "public") with
         | some (.str _) =>
           .ok { keyid, gpg := false, material := keyMaterial kvs, creation := none, validity := none,
@@ -317,12 +333,20 @@ def Payload.signableBytes (p : Payload) : Option Str := canon p.toJ
 
 /-- Dispatch on `_type` (`Metablock.from_dict`, `Envelope.get_payload`). -/
 def readPayload (bad : Err) (data : JVal) : Except Err Payload :=
-  match data.getKey? (lit "_type") with
-  | some (.str t) =>
-    if t = lit "link" then (readLink data).map .link
-    else if t = lit "layout" then (readLayout data).map .layout
-    else .error bad
-  | _ => .error bad
+  let r : Except Err Payload :=
+    match data.getKey? (lit "_type") with
+    | some (.str t) =>
+      if t = lit "link" then (readLink data).map .link
+      else if t = lit "layout" then (readLayout data).map .layout
+      else .error bad
+    | _ => .error bad
+  match r with
+  | .error e => .error e
+  | .ok p =>
+    -- `validate()` enumerates all members with `inspect.getmembers`, which evaluates the
+    -- `signable_bytes` property: content that cannot be canonically encoded (a float)
+    -- fails construction with FormatError.
+    if p.signableBytes.isSome then .ok p else .error .format
 
 /-! ## Signature containers -/
 
